@@ -5,8 +5,8 @@
    for all arguments and all junk; an ErrPayloadTooBig of the C03 model is SEND's None.  Hence the
    C03 round-trip theorems apply verbatim to every frame C07 talks about.
    Only statements, each closed by [exact]. *)
-From PV Require Import Base.Prelude Base.Slice Model.EncodeBase Model.Encode Model.EncodeDHCP Spec.EncodeRef Spec.EncodeRefDHCP
-     Proofs.EncodeDHCP Proofs.EncodeGlue Proofs.EncodeGlueDHCP.
+From PV Require Import Base.Prelude Base.Slice Model.EncodeBase Model.Encode Model.EncodeCompose Model.EncodeDHCP Spec.EncodeRef Spec.EncodeRefDHCP
+     Proofs.EncodeIP4 Proofs.EncodeMisc Proofs.EncodeCompose Proofs.EncodeDHCP Proofs.EncodeGlue Proofs.EncodeGlueDHCP Proofs.EncodeGluePath.
 From PV Require Model.DHCP.
 From PV Require Model.SendBase Model.Send Model.SendUdp Model.SendNdp.
 Open Scope N_scope.
@@ -185,3 +185,116 @@ Theorem C03_dhcp_offer_ack_bytes : forall b c (t : DHCP.rtype) m yi net2,
     rd_xid rec = sub (arr b) 4 4 /\ rd_chaddr rec = sub (arr b) 28 6 ++ repeat 0 10.
 Proof. exact dhcp_offer_ack_bytes. Qed.
 Print Assumptions C03_dhcp_offer_ack_bytes.
+
+(* ---------------------------------------------------------------- *)
+(* Round 7: the glue along whole send paths.  The per-layer round trips of Properties/C03.v are composed
+   along the path SEND's model takes, for arbitrary previous contents [junk] of the pooled buffer. *)
+
+(* Ether o IP4 o UDP o payload (sendDHCP4Packet, sendNBNS, SendSSDPSearch, mDNS/LLMNR over IPv4): the one
+   frame sent is the view of the C03 composition; Session.Parse classifies it by its ports; the library
+   views and the reference decoders read back exactly the arguments of the call. *)
+Theorem C03_glue_udp4_path : forall smac dmac ttl sip dip sp dp (data junk : bytes),
+  length junk = SendBase.EthMaxSize -> length smac = 6%nat -> length dmac = 6%nat ->
+  is4 sip = true -> is4 dip = true -> (42 + length data <= SendBase.EthMaxSize)%nat ->
+  bytes_ok smac -> bytes_ok dmac -> bytes_ok sip -> bytes_ok dip -> bytes_ok data ->
+  ttl < 256 -> sp < 65536 -> dp < 65536 -> N.land (nth 0 smac 0) 1 = 0 ->
+  let udpb := udp_hdr sp dp (8 + N.of_nat (length data)) ++ data in
+  exists f,
+    compose_udp4 (mkSlice junk SendBase.EthMaxSize) smac dmac ttl sip dip sp dp data = Ok f /\
+    SendUdp.udp4_send smac dmac ttl sip dip sp dp data junk = Ok [view f] /\
+    length (view f) = (42 + length data)%nat /\
+    parse_class f = Ok (class_of_ports sp dp, false) /\
+    (exists ipb,
+       ref_ether (view f) = Some {| re_dst := dmac; re_src := smac; re_type := ETH_P_IP; re_payload := ipb |} /\
+       ref_ip4 ipb = Some (ip4_expected_ref ttl 17 sip dip udpb) /\
+       ref_udp udpb = Some (udp_expected_ref sp dp data)) /\
+    (ipv <- ether_payload f ;; ip4_decode_lib ipv)%res = Ok (ip4_expected_view ttl 17 sip dip udpb) /\
+    (ipv <- ether_payload f ;; u <- ip4_payload ipv ;; udp_decode_lib u)%res = Ok (udp_expected_view sp dp data).
+Proof. exact glue_udp4_path. Qed.
+Print Assumptions C03_glue_udp4_path.
+
+(* Ether o IP4 o UDP o DHCP4: EncodeDHCP4's message sent by sendDHCP4Packet; the option map is read back
+   from the frame's UDP payload, the mask before the router *)
+Theorem C03_glue_dhcp4_path : forall b opcode mt chaddr ci yi xid bc options order perm
+        (src dst : SendBase.addr) sp dp junk,
+  (300 <= cap b)%nat ->
+  match chaddr with Some m => length m = 6%nat | None => True end ->
+  match xid with Some x => length x = 4%nat | None => True end ->
+  let o' := set_opt 53 [mt] options in
+  nodup options -> opts_ok o' -> (241 + osize o' <= cap b)%nat ->
+  let em := emission o' order perm in
+  let pad := repeat 0 (300 - (241 + osize em)) in
+  let msg := dhcp_hdr (arr b) opcode chaddr ci yi xid bc ++ enc em ++ 255 :: pad in
+  bytes_ok msg -> (42 + length msg <= SendBase.EthMaxSize)%nat ->
+  length junk = SendBase.EthMaxSize ->
+  length (SendBase.a_mac src) = 6%nat -> length (SendBase.a_mac dst) = 6%nat ->
+  is4 (SendBase.a_ip src) = true -> is4 (SendBase.a_ip dst) = true ->
+  bytes_ok (SendBase.a_mac src) -> bytes_ok (SendBase.a_mac dst) ->
+  bytes_ok (SendBase.a_ip src) -> bytes_ok (SendBase.a_ip dst) ->
+  sp < 65536 -> dp < 65536 -> N.land (nth 0 (SendBase.a_mac src) 0) 1 = 0 ->
+  exists p f,
+    encode_dhcp4 b opcode mt chaddr ci yi xid bc options order perm = Ok p /\ view p = msg /\
+    SendUdp.send_dhcp4_packet src dst sp dp (view p) junk = Ok [f] /\
+    length f = (42 + length msg)%nat /\
+    (exists ipb,
+       ref_ether f = Some {| re_dst := SendBase.a_mac dst; re_src := SendBase.a_mac src;
+                             re_type := ETH_P_IP; re_payload := ipb |} /\
+       ref_ip4 ipb = Some (ip4_expected_ref 50 17 (SendBase.a_ip src) (SendBase.a_ip dst)
+                             (udp_hdr sp dp (8 + N.of_nat (length msg)) ++ msg)) /\
+       ref_udp (udp_hdr sp dp (8 + N.of_nat (length msg)) ++ msg) = Some (udp_expected_ref sp dp msg)) /\
+    ref_dhcp_opts (S (length (dhcp_options p))) (dhcp_options p) = Some em /\
+    (forall k, lookup_opt k em = lookup_opt k o') /\ mask_before_router em = true.
+Proof. exact glue_dhcp4_path. Qed.
+Print Assumptions C03_glue_dhcp4_path.
+
+Example C03_glue_dhcp4_path_ex :
+  let b := mkSlice (repeat 7 400) 0 in
+  let options := [(1, [255;255;255;0]); (3, [192;168;0;1]); (6, [8;8;8;8]); (12, [104;105])] in
+  let src := ([2;0;0;0;0;1], [192;168;0;1]) in
+  let dst := ([2;0;0;0;0;9], [192;168;0;9]) in
+  exists p f, encode_dhcp4 b 2 5 None [] [192;168;0;9] None false options [6; 3; 1] [12; 53] = Ok p /\
+    SendUdp.send_dhcp4_packet src dst 67 68 (view p) (repeat 170 1522) = Ok [f] /\ length f = 342%nat.
+Proof. exact glue_dhcp4_path_ex. Qed.
+Print Assumptions C03_glue_dhcp4_path_ex.
+
+(* Ether o IP6 o ICMPv6 (icmp6SendPacket: echo, NS, NA, RS, RA with options): the frame decodes to the
+   addresses of the call and to the ICMPv6 message handed in, up to its two checksum octets *)
+Theorem C03_glue_icmp6_path : forall c (src dst : SendBase.addr) (p junk : bytes),
+  length junk = SendBase.EthMaxSize -> length (SendBase.host_mac c) = 6%nat -> length (SendBase.a_mac dst) = 6%nat ->
+  length (SendBase.a_ip src) = 16%nat -> length (SendBase.a_ip dst) = 16%nat ->
+  bytes_ok (SendBase.a_ip src) -> bytes_ok (SendBase.a_ip dst) -> bytes_ok p ->
+  (4 <= length p)%nat -> (54 + length p <= SendBase.EthMaxSize)%nat ->
+  let p' := icmp6_with_checksum (SendBase.a_ip src) (SendBase.a_ip dst) p in
+  exists f ipb,
+    Send.icmp6_send_packet c src dst p junk = Ok [f] /\ length f = (54 + length p)%nat /\
+    ref_ether f = Some {| re_dst := SendBase.a_mac dst; re_src := SendBase.host_mac c; re_type := 34525; re_payload := ipb |} /\
+    ref_ip6 ipb = Some (ip6_expected_ref 58 (icmp6_hop (SendBase.a_ip dst) p) (SendBase.a_ip src) (SendBase.a_ip dst) p') /\
+    length p' = length p /\ firstn 2 p' = firstn 2 p /\ skipn 4 p' = skipn 4 p /\ ref_nd p' = ref_nd p.
+Proof. exact glue_icmp6_path. Qed.
+Print Assumptions C03_glue_icmp6_path.
+
+(* Ether o IP6 o ICMPv6 o NA: the neighbour advertisement, read back by the RFC 4861 reference decoder *)
+Theorem C03_glue_na_path : forall c (src dst target : SendBase.addr) ro so ov junk,
+  length junk = SendBase.EthMaxSize -> length (SendBase.host_mac c) = 6%nat -> length (SendBase.a_mac dst) = 6%nat ->
+  length (SendBase.a_ip src) = 16%nat -> length (SendBase.a_ip dst) = 16%nat ->
+  bytes_ok (SendBase.a_ip src) -> bytes_ok (SendBase.a_ip dst) ->
+  length (SendBase.a_ip target) = 16%nat -> length (SendBase.a_mac target) = 6%nat ->
+  bytes_ok (SendBase.a_ip target) -> bytes_ok (SendBase.a_mac target) ->
+  exists f ipb icmpb,
+    Send.icmp6_send_packet c src dst (Send.na_marshal ro so ov target) junk = Ok [f] /\ length f = 86%nat /\
+    ref_ether f = Some {| re_dst := SendBase.a_mac dst; re_src := SendBase.host_mac c; re_type := 34525; re_payload := ipb |} /\
+    ref_ip6 ipb = Some (ip6_expected_ref 58 255 (SendBase.a_ip src) (SendBase.a_ip dst) icmpb) /\
+    ref_nd icmpb = Some {| rn_type := 136; rn_code := 0; rn_flags := nd_flags ro so ov;
+                           rn_target := SendBase.a_ip target; rn_options := [(2, SendBase.a_mac target)] |}.
+Proof. exact glue_na_path. Qed.
+Print Assumptions C03_glue_na_path.
+
+Example C03_glue_na_path_ex :
+  let c := SendBase.mkCfg [2;0;0;0;0;1] [192;168;0;1] [] [] [] 1500 in
+  let lla := [254;128;0;0;0;0;0;0;0;0;0;0;0;0;0;1] in
+  exists f, Send.icmp6_send_packet c ([2;0;0;0;0;1], lla)
+              ([51;51;0;0;0;1], [255;2;0;0;0;0;0;0;0;0;0;0;0;0;0;1])
+              (Send.na_marshal true false true ([2;0;0;0;0;1], lla))
+              (repeat 170 1522) = Ok [f] /\ length f = 86%nat.
+Proof. exact glue_na_path_ex. Qed.
+Print Assumptions C03_glue_na_path_ex.
